@@ -89,8 +89,24 @@ pub fn execute(
     target: Option<&str>,
     known: &Known,
 ) -> RunResult {
+    execute_mode(reg, anchors, cfg, ops, canary, target, known, false)
+}
+
+/// `cold`: deferred oracles (see `World::settle`); only meaningful as the first thing a process does.
+#[allow(clippy::too_many_arguments)]
+pub fn execute_mode(
+    reg: &Registry,
+    anchors: &Anchors,
+    cfg: &RunCfg,
+    ops: &[Op],
+    canary: u64,
+    target: Option<&str>,
+    known: &Known,
+    cold: bool,
+) -> RunResult {
     let stale0 = stale_reads();
     let mut w = World::new(reg, anchors, cfg.clone(), canary);
+    w.deferred = cold;
     let mut violation = None;
     let mut created = 0u64;
     for op in ops {
@@ -103,12 +119,22 @@ pub fn execute(
             Err(v) => {
                 if known.matches(&v).is_some() {
                     w.notes.push(v);
-                } else if target.map(|t| t == v.prop).unwrap_or(true) {
+                } else if target.map(|t| v.concerns(t)).unwrap_or(true) {
                     violation = Some(v);
                     break;
                 } else {
                     w.notes.push(v);
                 }
+            }
+        }
+    }
+    if cold && violation.is_none() {
+        w.drop_all();
+        if let Some(v) = w.settle() {
+            if known.matches(&v).is_some() || !target.map(|t| v.concerns(t)).unwrap_or(true) {
+                w.notes.push(v);
+            } else {
+                violation = Some(v);
             }
         }
     }
@@ -139,10 +165,15 @@ pub fn run_one(reg: &Registry, anchors: &Anchors, prop: Prop, seed: u64, known: 
 }
 
 pub fn run_one_limited(reg: &Registry, anchors: &Anchors, prop: Prop, seed: u64, known: &Known, lim: &Limits) -> RunResult {
+    run_one_mode(reg, anchors, prop, seed, known, lim, false)
+}
+
+pub fn run_one_mode(reg: &Registry, anchors: &Anchors, prop: Prop, seed: u64, known: &Known, lim: &Limits, cold: bool) -> RunResult {
     let stale0 = stale_reads();
     let mut rng = Prng::new(seed);
     let pl = plan_limited(reg, prop, &mut rng, lim);
     let mut w = World::new(reg, anchors, pl.cfg.clone(), seed);
+    w.deferred = cold;
     let mut g = Gen::new();
     let mut ops = Vec::with_capacity(pl.len);
     let mut violation = None;
@@ -160,12 +191,22 @@ pub fn run_one_limited(reg: &Registry, anchors: &Anchors, prop: Prop, seed: u64,
             Err(v) => {
                 if known.matches(&v).is_some() {
                     w.notes.push(v);
-                } else if v.prop == prop.name() {
+                } else if v.concerns(prop.name()) {
                     violation = Some(v);
                     break;
                 } else {
                     w.notes.push(v);
                 }
+            }
+        }
+    }
+    if cold && violation.is_none() {
+        w.drop_all();
+        if let Some(v) = w.settle() {
+            if known.matches(&v).is_some() || !v.concerns(prop.name()) {
+                w.notes.push(v);
+            } else {
+                violation = Some(v);
             }
         }
     }
@@ -200,20 +241,26 @@ pub struct Shrunk {
     pub replays: u64,
 }
 
-pub fn shrink(reg: &Registry, anchors: &Anchors, r: &RunResult, known: &Known) -> Option<Shrunk> {
+pub fn shrink(reg: &Registry, anchors: &Anchors, r: &RunResult, known: &Known, target: &str) -> Option<Shrunk> {
+    let seed = r.seed;
+    let mut f = |cfg: &RunCfg, ops: &[Op]| execute(reg, anchors, cfg, ops, seed, Some(target), known).violation;
+    shrink_with(r, target, &mut f)
+}
+
+/// Minimise with a caller-supplied executor (the cold-start engine replays in fresh processes).
+pub fn shrink_with(r: &RunResult, target: &str, exec: &mut dyn FnMut(&RunCfg, &[Op]) -> Option<Violation>) -> Option<Shrunk> {
     let v0 = r.violation.clone()?;
     let sig = v0.signature();
-    let prop = v0.prop;
     let mut replays = 0u64;
     let mut test = |cfg: &RunCfg, ops: &[Op]| -> Option<Violation> {
         replays += 1;
-        let rr = execute(reg, anchors, cfg, ops, r.seed, Some(prop), known);
-        match rr.violation {
-            Some(v) if v.signature() == sig => Some(v),
+        match exec(cfg, ops) {
+            Some(v) if v.signature() == sig && v.concerns(target) => Some(v),
             _ => None,
         }
     };
     let mut cfg = r.cfg.clone();
+    // (a cold-start violation is found after the history, but its step is that of the judged call)
     let mut ops: Vec<Op> = r.ops[..=(v0.step.min(r.ops.len() - 1))].to_vec();
     let mut best = match test(&cfg, &ops) {
         Some(v) => v,
@@ -472,7 +519,7 @@ pub fn run_batch(
                 let base = format!("{}/{}-{}-{}", replay_dir, prop.name(), master, i);
                 let _ = std::fs::create_dir_all(replay_dir);
                 let _ = std::fs::write(format!("{}.orig.json", base), serde_json::to_string_pretty(&orig).unwrap());
-                let (path, vj) = match shrink(reg, anchors, &r, known) {
+                let (path, vj) = match shrink(reg, anchors, &r, known, prop.name()) {
                     Some(s) => {
                         let j = replay_json(
                             reg,
